@@ -162,6 +162,7 @@ func TestC20Rapid(t *testing.T) {
 			return out
 		}
 		m := c20Model{dirs: drawDirs(t, "initDirs"), auto: rapid.Bool().Draw(t, "initAuto")}
+		waitForInotify()
 		cache, _ := cdi.NewCache(cdi.WithSpecDirs(m.dirs...), cdi.WithAutoRefresh(m.auto))
 		defer func() { _ = cache.Configure(cdi.WithAutoRefresh(false)) }()
 		var history []c20Step
